@@ -136,4 +136,83 @@ Fixpoint temp_calls (ostmp : str) (s : St) (g : tgen) (calls : list (bool * str 
     (s2, g3, (x, nm, reseeded) :: xs)
   end.
 
+(* ---- successive calls, in resolved form: (TempFile?, effective dir, prefix, suffix) ---- *)
+Definition tcall : Type := (bool * str * str * str)%type.
+Definition tcall_mk (isfile : bool) : str -> op := if isfile then temp_file_op else temp_dir_op.
+
+Fixpoint temp_seq (s : St) (g : tgen) (calls : list tcall) : St * tgen * list temp_res :=
+  match calls with
+  | [] => (s, g, [])
+  | (isfile, dir, prefix, suffix) :: r =>
+    let '(s1, g1, x) := temp_loop (tcall_mk isfile) (Z.to_nat temp_attempts) s g 0 dir prefix suffix TempNil in
+    let '(s2, g2, xs) := temp_seq s1 g1 r in
+    (s2, g2, x :: xs)
+  end.
+
+(* ---- concurrent callers: any interleaving of their atomic steps.
+   A caller alternates "draw" (nextRandom under randmu: one atomic step on the shared generator)
+   and "try" (the exclusive create: one step of the filesystem, ASSUMED atomic); a schedule is any
+   list of events, an event naming a caller that cannot move is a no-op. ---- *)
+Record tcaller := mkTC {
+  tc_isfile : bool; tc_dir : str; tc_prefix : str; tc_suffix : str;
+  tc_pending : option str;       (* candidate drawn, not tried yet *)
+  tc_nconf : Z; tc_left : nat;   (* conflicts so far, attempts left *)
+  tc_result : option temp_res }.
+
+Definition tc_start (c : tcall) : tcaller :=
+  let '(isfile, dir, prefix, suffix) := c in
+  mkTC isfile dir prefix suffix None 0 (Z.to_nat temp_attempts) None.
+
+Inductive tevent := TDraw (i : nat) | TTry (i : nat).
+
+Definition tc_with (c : tcaller) (pending : option str) (nconf : Z) (lft : nat) (result : option temp_res) : tcaller :=
+  mkTC (tc_isfile c) (tc_dir c) (tc_prefix c) (tc_suffix c) pending nconf lft result.
+
+Definition conc_event (st : St * tgen * list tcaller) (ev : tevent) : St * tgen * list tcaller :=
+  let '(s, g, cs) := st in
+  match ev with
+  | TDraw i =>
+    match nth_error cs i with
+    | Some c =>
+      match tc_result c, tc_pending c, tc_left c with
+      | None, None, S lft =>
+        let '(d, g1) := tg_next g in
+        let name := join2 (tc_dir c) (tc_prefix c ++ d ++ tc_suffix c) in
+        (s, g1, list_set i (tc_with c (Some name) (tc_nconf c) lft None) cs)
+      | _, _, _ => st
+      end
+    | None => st
+    end
+  | TTry i =>
+    match nth_error cs i with
+    | Some c =>
+      match tc_result c, tc_pending c with
+      | None, Some name =>
+        match step s (tcall_mk (tc_isfile c) name) with
+        | (s1, RErr e) =>
+          if is_exist e then
+            let nc := tc_nconf c + 1 in
+            let g1 := if temp_reseed_after <? nc then tg_set_reseed g else g in
+            let res := match tc_left c with O => Some (TempErr e) | _ => None end in
+            (s1, g1, list_set i (tc_with c None nc (tc_left c) res) cs)
+          else (s1, g, list_set i (tc_with c None (tc_nconf c) (tc_left c) (Some (TempErr e))) cs)
+        | (s1, RHandle h) => (s1, g, list_set i (tc_with c None (tc_nconf c) (tc_left c) (Some (TempOk name (Some h)))) cs)
+        | (s1, ROk) => (s1, g, list_set i (tc_with c None (tc_nconf c) (tc_left c) (Some (TempOk name None))) cs)
+        | (s1, _) => (s1, g, list_set i (tc_with c None (tc_nconf c) (tc_left c) (Some TempPanic)) cs)
+        end
+      | _, _ => st
+      end
+    | None => st
+    end
+  end.
+
+Definition conc_run (s : St) (g : tgen) (calls : list tcall) (schedule : list tevent) : St * tgen * list tcaller :=
+  fold_left conc_event schedule (s, g, map tc_start calls).
+
 End Temp.
+
+(* the names handed out *)
+Definition temp_ok_name (x : temp_res) : list str := match x with TempOk n _ => [n] | _ => [] end.
+Definition conc_names (cs : list tcaller) : list str :=
+  flat_map (fun c => match tc_result c with Some x => temp_ok_name x | None => [] end) cs.
+
